@@ -270,12 +270,16 @@ def oracle(chk, n, n_hankel, n_psd_mat):
     for it in range(n):
         chk.oracle_cases += 1
         r0, L0 = gen_atm(rng)
+        if rng.random() < 0.1:
+            # the edges of the parameter domain (round 5): sub-millimetre … kilometre r0, outer scales of a millimetre … 1e10 m
+            r0, L0 = logu(rng, 1e-4, 1e3), logu(rng, 1e-3, 1e10)
+            chk.count("oracle:wide-atmosphere")
         A = (L0 / r0) ** (5. / 3)
         sat, c0 = KD * A, 0.5 * kc * A
         chk.count("oracle:L0>=1e6" if L0 >= 1e6 else "oracle:L0<1e6")
-        # a sorted grid of separations: 0, tiny, log-dense through the outer scale, far beyond it, plus random ones
+        # a sorted grid of separations: 0, tiny, log-dense through the outer scale, far beyond it (up to 1e12 L0), plus random ones
         grid = [0.0] + [gen_r(rng, L0, allow_zero=False)[0] for _ in range(12)]
-        grid += list(numpy.exp(numpy.linspace(math.log(1e-8 * L0), math.log(1e4 * L0), 60)))
+        grid += list(numpy.exp(numpy.linspace(math.log(1e-8 * L0), math.log(1e4 * L0), 60))) + [1e8 * L0, 1e12 * L0]
         r = numpy.array(sorted(set(grid)))
         chk.case(("oracle", r0, L0, len(r)), sample={"r0": r0, "L0": L0, "n_r": len(r), "r[:4]": r[:4].tolist()} if it < 2 else None)
         rep = dict(r0=r0, L0=L0)
@@ -538,7 +542,9 @@ def oracle(chk, n, n_hankel, n_psd_mat):
                     f=f.tolist(), fm=fm, r0=r0, L0=L0)
             c = logu(rng, 0.2, 5.0)
             p3 = numpy.asarray(call(psds["ft_phase_screen"], f, fm, 1. / L0, c * r0), dtype=float)
-            if not numpy.allclose(p3, c ** (-5. / 3) * p1, rtol=1e-11, atol=0):
+            # atol: where exp(-(f/fm)^2) leaves the spectrum in the subnormal range (< 2.2e-308, a few bits of precision) no scaling law
+            # can hold to 1e-11 — that was a false alarm on the unchanged library in 3e-4 of the cases (round 5, thorough seed 11)
+            if not numpy.allclose(p3, c ** (-5. / 3) * p1, rtol=1e-11, atol=1e-290):
                 bad("scaling:PSD_phi", "PSD_phi does not scale as r0^(-5/3) (r0=%r c=%r)" % (r0, c), r0=r0, c=c, L0=L0)
             ratios = []
             for q in (0.003, 0.05, 0.7, 6.0):
@@ -657,6 +663,416 @@ def float32_separations(chk, n):
                     break
 
 
+
+# ------------------------------------------------------------------------------------------ round 5: generator audit
+def _fn_table():
+    from aotools.turbulence import turb, slopecovariance as sc
+    from aotools.functions import karhunenLoeve as kl
+    return [("structure_function_vk", lambda r, r0, L0: sc.structure_function_vk(r, r0, L0)),
+            ("phase_covariance", lambda r, r0, L0: turb.phase_covariance(r, r0, L0)),
+            ("stf_vonKarman", lambda r, r0, L0: kl.stf_vonKarman(r, L0)),
+            ("structure_function_kolmogorov", lambda r, r0, L0: sc.structure_function_kolmogorov(r, r0)),
+            ("stf_kolmogorov", lambda r, r0, L0: kl.stf_kolmogorov(r))]
+
+
+def _ev(f, r, r0, L0):
+    with numpy.errstate(all="ignore"):
+        return numpy.asarray(f(r, r0, L0), dtype=float)
+
+
+def near_equal_history(chk, n):
+    """call HISTORIES a cache keyed on rounded parameters gets wrong (the main oracle draws r0 and L0 afresh for every case, so two
+    atmospheres that agree to 4-9 digits only meet by accident): sequences of calls whose r0 or L0 differ by 2.7e-3, 1e-5, 1e-8
+    relative (r0 = 0.1500 then 0.1504, L0 = 25 then 25.0004, sub-millimetre r0 pairs), every call checked against the previous
+    ones by the exact scaling laws of the one von Kármán model:  f(r; c·r0, L0) = c^(-5/3) f(r; r0, L0)  and
+    f(c·r; r0, c·L0) = c^(5/3) f(r; r0, L0)  (D = κ (L0/r0)^(5/3) F(r/L0)), for the structure function, the covariance and the KL
+    copy; the KL copy called BEFORE the slope-covariance one for a fresh atmosphere (the main oracle always calls them the other
+    way round)."""
+    from aotools.turbulence import turb, slopecovariance as sc
+    from aotools.functions import karhunenLoeve as kl
+    rng = chk.rng
+    kc = kappa_c()
+    for it in range(n):
+        chk.oracle_cases += 1
+        u = rng.random()
+        if u < 0.25:
+            r0, L0 = rng.choice([0.15, 0.1, 0.2]), rng.choice([25.0, 10.0, 100.0])
+        elif u < 0.4:
+            r0, L0 = rng.choice([2e-4, 3e-4, 1e-4]), logu(rng, 1.0, 100.0)          # both r0 below 5e-4
+        else:
+            r0, L0 = gen_atm(rng)
+        A = (L0 / r0) ** (5. / 3)
+        sat, c0 = KD * A, 0.5 * kc * A
+        r = numpy.array([0.0] + sorted(logu(rng, 1e-6, 1e3) * L0 for _ in range(10)) + [1e5 * L0])
+        chk.count("oracle:near-equal-history")
+        chk.case(("near-equal-history", r0, L0, it))
+        # KL copy first, then the slope-covariance copy, for this fresh atmosphere
+        with numpy.errstate(all="ignore"):
+            Kl = numpy.asarray(kl.stf_vonKarman(r, L0), dtype=float)
+            D0 = numpy.asarray(sc.structure_function_vk(r, r0, L0), dtype=float)
+            C0 = numpy.asarray(turb.phase_covariance(r, r0, L0), dtype=float)
+        e = numpy.abs(Kl * r0 ** (-5. / 3) - D0)
+        i = int(numpy.argmax(e))
+        if not e[i] <= 1e-12 * abs(D0[i]) + 1e-14 * sat:
+            chk.fail("copies:stf_vonKarman(r,L0):kl-first", "stf_vonKarman called first, then structure_function_vk: r0^(-5/3) stf_vonKarman(r, L0) "
+                     "= %r but structure_function_vk(r, r0, L0) = %r at r=%r r0=%r L0=%r" % (float(Kl[i] * r0 ** (-5. / 3)), float(D0[i]), float(r[i]), r0, L0),
+                     dict(r=float(r[i]), r0=r0, L0=L0))
+        eps_list = [rng.choice([2.7e-3, -2.7e-3]), 1e-5, 1e-8, 4e-4 / 25.0]
+        rng.shuffle(eps_list)
+        for eps in eps_list:
+            c = 1.0 + eps
+            s53 = c ** (5. / 3)
+            with numpy.errstate(all="ignore"):
+                got = {  # (value at the neighbouring atmosphere, what the scaling law makes of the first call)
+                    "r0-scaling:structure_function_vk": (sc.structure_function_vk(r, c * r0, L0), D0 / s53, sat),
+                    "r0-scaling:phase_covariance": (turb.phase_covariance(r, c * r0, L0), C0 / s53, c0),
+                    "L0-scaling:structure_function_vk": (sc.structure_function_vk(c * r, r0, c * L0), D0 * s53, sat),
+                    "L0-scaling:phase_covariance": (turb.phase_covariance(c * r, r0, c * L0), C0 * s53, c0),
+                    "L0-scaling:stf_vonKarman": (kl.stf_vonKarman(c * r, c * L0), Kl * s53, KD * L0 ** (5. / 3)),
+                }
+            for key, (v, want, scale) in got.items():
+                v = numpy.asarray(v, dtype=float)
+                tol = 1e-11 * numpy.abs(want) + 1e-12 * scale
+                if v.shape != want.shape:
+                    chk.fail("history:" + key, "%s: shape %s for separations of shape %s" % (key, v.shape, want.shape), dict(r0=r0, L0=L0, c=c))
+                    continue
+                e = numpy.abs(v - want) - tol
+                i = int(numpy.argmax(e))
+                track("history:" + key, abs(float(v[i] - want[i])), float(tol[i]))
+                if not numpy.all(numpy.abs(v - want) <= tol):
+                    chk.fail("history:" + key, "after a call with (r0=%r, L0=%r) the call with the neighbouring atmosphere (c = 1%+.3g: %s) gives %r "
+                             "at r=%r where the exact scaling law gives %r" % (r0, L0, eps, "r0 -> c r0" if key.startswith("r0") else "r, L0 -> c r, c L0",
+                                                                            float(v[i]), float(r[i]), float(want[i])),
+                             dict(r0=r0, L0=L0, c=c, r=float(r[i]), clause=key))
+
+
+def big_arrays(chk, quick):
+    """array SIZES: everything above evaluates at most 73 separations (1600 in a covariance matrix).  300, 2^16+3 and 2^18+1
+    elements (thorough: 2^20+1), 1-D and 2-D: the values must be those of the same separations evaluated 37 at a time (elementwise
+    functions; observed bit-identical, tolerance 1e-13 relative)"""
+    rng = chk.rng
+    sizes = [300, 2 ** 16 + 3, 2 ** 18 + 1] + ([] if quick else [2 ** 20 + 1, 5000, 70001])
+    for size in sizes:
+        r0, L0 = gen_atm(rng)
+        nprng = numpy.random.default_rng(rng.getrandbits(32))
+        r = numpy.exp(nprng.uniform(math.log(1e-8), math.log(1e4), size)) * L0
+        r[nprng.integers(0, size, 5)] = 0.0
+        idx = numpy.sort(nprng.choice(size, 8, replace=False))
+        idx = numpy.unique(numpy.concatenate([idx, [0, size - 1, size // 2], numpy.flatnonzero(r == 0)[:2]]))
+        for fn, f in _fn_table():
+            chk.oracle_cases += 1
+            chk.count("oracle:big-array:%d" % size)
+            chk.case(("big-array", fn, size, r0, L0))
+            forms = [("1-D", r)]
+            if size % 3 == 0 or size > 1000:
+                k = size // 257 if size > 1000 else 3
+                forms.append(("2-D", r[:k * (size // k)].reshape(k, size // k)))
+            for cls, arr in forms:
+                keep = arr.copy()
+                v = _ev(f, arr, r0, L0)
+                if v.shape != arr.shape or not numpy.array_equal(arr, keep):
+                    chk.fail("big-array:%s:%s" % (fn, cls), "%s on %d separations returns shape %s for shape %s%s" % (
+                        fn, size, v.shape, arr.shape, "" if numpy.array_equal(arr, keep) else " and modified them in place"), dict(fn=fn, size=size, r0=r0, L0=L0))
+                    continue
+                flat, src = v.ravel(), arr.ravel()
+                sel = idx[idx < flat.size]
+                small = numpy.array([float(_ev(f, src[j:j + 1].copy(), r0, L0)[0]) for j in sel])
+                chunk = _ev(f, src[:37].copy(), r0, L0)
+                # absolute slack 1e-14 of the saturation value / variance (the `elementwise` slack of the main oracle): a 1-ulp difference
+                # between array and single-element evaluation of a power is amplified by the cancellation in 1 - h/h0 and is not 1e-13
+                # of a subnormal covariance; a size-dependent single-precision path is 1e-7 of that scale
+                scale = {"structure_function_vk": KD * (L0 / r0) ** (5. / 3), "stf_vonKarman": KD * L0 ** (5. / 3),
+                         "phase_covariance": 0.5 * kappa_c() * (L0 / r0) ** (5. / 3)}.get(fn, 0.0)
+                for got, want, where in ((flat[sel], small, sel), (flat[:37], chunk, numpy.arange(37))):
+                    ok = numpy.isclose(got, want, rtol=1e-13, atol=1e-14 * scale, equal_nan=False)
+                    if not ok.all():
+                        j = int(numpy.flatnonzero(~ok)[0])
+                        chk.fail("big-array:%s:%s" % (fn, cls), "%s on an array of %d separations (%s) gives %r at r=%r (element %d), on its own %r (r0=%r L0=%r)"
+                                 % (fn, size, cls, float(got[j]), float(src[where[j]]), int(where[j]), float(want[j]), r0, L0),
+                                 dict(fn=fn, size=size, r=float(src[where[j]]), r0=r0, L0=L0))
+                        break
+
+
+def more_input_classes(chk, n):
+    """forms of the separation argument not produced above: NumPy float64 scalars and 0-d float arrays, 1-element and empty arrays,
+    all-zero arrays, negative zero, read-only arrays, negative strides in two dimensions, a moved axis / Fortran order in three
+    dimensions (with exact zeros inside) — each must give the values of the plain 1-D float64 call, and leave the argument alone"""
+    rng = chk.rng
+    for it in range(n):
+        chk.oracle_cases += 1
+        r0, L0 = gen_atm(rng)
+        x = numpy.array([gen_r(rng, L0)[0] for _ in range(24)])
+        x[rng.randrange(24)] = 0.0
+        x[rng.randrange(24)] = 0.0
+        chk.case(("more-input-classes", r0, L0, it))
+        for fn, f in _fn_table():
+            base = _ev(f, x.copy(), r0, L0)
+
+            # scalar and array calls round x**(5/6) differently (1 ulp), which the cancellation in 1 - h(x)/h0 turns into 1e-16 of
+            # the saturation value: the slack of the main oracle's `elementwise` clause (1e-14 sat), for the scalar classes only
+            # (phase_covariance: no cancellation, but x^(5/6) K(x) is subnormal for x in 705 … 745, where 1 ulp of a factor is not 1e-13)
+            sat_fn = {"structure_function_vk": KD * (L0 / r0) ** (5. / 3), "stf_vonKarman": KD * L0 ** (5. / 3),
+                      "phase_covariance": 0.5 * kappa_c() * (L0 / r0) ** (5. / 3)}.get(fn, 0.0)
+
+            def same(cls, got, want, r=None, atol=0.0):
+                chk.count("input-class:" + cls)
+                if got.shape != want.shape or not numpy.allclose(got, want, rtol=1e-13, atol=atol, equal_nan=False):
+                    chk.fail("input-class:%s:%s" % (fn, cls), "%s with %s returns %s, the plain float64 call %s (r0=%r L0=%r)"
+                             % (fn, cls, "shape %s" % (got.shape,) if got.shape != want.shape else got.ravel()[:4].tolist(),
+                                "shape %s" % (want.shape,) if got.shape != want.shape else want.ravel()[:4].tolist(), r0, L0),
+                             dict(fn=fn, input_class=cls, r0=r0, L0=L0, r=(x if r is None else numpy.asarray(r)).tolist()))
+            for k in (int(numpy.flatnonzero(x == 0)[0]), rng.randrange(24), rng.randrange(24)):
+                same("r:numpy.float64-scalar", _ev(f, numpy.float64(x[k]), r0, L0), base[k], r=x[k], atol=1e-14 * sat_fn)
+                same("r:0-d-float-array", _ev(f, numpy.array(x[k]), r0, L0), base[k], r=x[k], atol=1e-14 * sat_fn)
+                same("r:1-element", _ev(f, x[k:k + 1].copy(), r0, L0), base[k:k + 1], r=x[k], atol=1e-14 * sat_fn)
+                same("r:1x1", _ev(f, x[k:k + 1].reshape(1, 1).copy(), r0, L0), base[k:k + 1].reshape(1, 1), r=x[k], atol=1e-14 * sat_fn)
+            same("r:empty", _ev(f, numpy.zeros(0), r0, L0), numpy.zeros(0), r=[])
+            same("r:empty-2-D", _ev(f, numpy.zeros((0, 3)), r0, L0), numpy.zeros((0, 3)), r=[])
+            z = _ev(f, 0.0, r0, L0)
+            same("r:all-zeros", _ev(f, numpy.zeros((3, 3)), r0, L0), numpy.full((3, 3), float(z)), r=[0.0])
+            same("r:negative-zero", _ev(f, numpy.array([-0.0, x[1], -0.0]), r0, L0), numpy.array([float(z), base[1], float(z)]), r=[-0.0], atol=1e-14 * sat_fn)
+            same("r:negative-zero-scalar", _ev(f, -0.0, r0, L0), z, r=-0.0)
+            ro = x.copy()
+            ro.flags.writeable = False
+            try:
+                same("layout:read-only", _ev(f, ro, r0, L0), base)
+                ro2 = numpy.asfortranarray(x.reshape(4, 6))
+                ro2.flags.writeable = False
+                same("layout:read-only-fortran", _ev(f, ro2, r0, L0), base.reshape(4, 6))
+            except ValueError as ex:
+                chk.fail("input-class:%s:read-only:raises" % fn, "%s raises %r on a read-only separation array (it writes into its argument)" % (fn, ex),
+                         dict(fn=fn, r0=r0, L0=L0, r=x.tolist()))
+            views = [("negative-strides-2-D", numpy.ascontiguousarray(x.reshape(4, 6)[::-1, ::-1])[::-1, ::-1], base.reshape(4, 6)),
+                     ("3-D-moveaxis", numpy.moveaxis(numpy.ascontiguousarray(numpy.moveaxis(x.reshape(2, 3, 4), 0, -1)), -1, 0), base.reshape(2, 3, 4)),
+                     ("3-D-fortran", numpy.asfortranarray(x.reshape(2, 3, 4)), base.reshape(2, 3, 4)),
+                     ("2-D-column-slice", numpy.stack([x.reshape(4, 6), x.reshape(4, 6) + 1], -1)[..., 0], base.reshape(4, 6))]
+            for cls, v, want in views:
+                assert numpy.array_equal(v, x.reshape(v.shape)) and not v.flags.c_contiguous
+                keep = v.copy()
+                same("layout:" + cls, _ev(f, v, r0, L0), want)
+                if not numpy.array_equal(v, keep):
+                    chk.fail("inplace:%s" % fn, "%s modified its %s separation array in place" % (fn, cls), dict(fn=fn, r0=r0, L0=L0, input_class=cls))
+
+
+def float32_other(chk, n):
+    """single precision where the library does NOT promise double: float32 separations of the structure functions are evaluated in
+    single precision (1.4e-7 of the saturation value observed; relative accuracy at r << L0 is lost) and float32 r0 / L0 scalars carry
+    their own rounding — only gross, dtype-dependent errors are looked for there (1e-4 of the saturation value / of the value; observed 7e-7 over 30 seeds), plus
+    exact clauses: finite everywhere, D(0) = 0 exactly.  phase_covariance converts r0 and L0 to Python floats first: float32
+    r0 / L0 give exactly the double-precision value at float(r0), float(L0) (1e-13)."""
+    from aotools.turbulence import turb
+    rng = chk.rng
+    for it in range(n):
+        chk.oracle_cases += 1
+        r0, L0 = logu(rng, 0.05, 0.5), logu(rng, 1.0, 1e3)
+        r64 = numpy.array([0.0, 0.0] + [logu(rng, 1e-4, 1e2) * L0 for _ in range(22)])
+        r32 = r64.astype(numpy.float32)
+        rr = r32.astype(float)
+        A = (L0 / r0) ** (5. / 3)
+        chk.count("oracle:float32-other")
+        chk.case(("float32-other", r0, L0, it))
+        for fn, f in _fn_table():
+            if fn == "phase_covariance":
+                continue
+            ref = _ev(f, rr, r0, L0)
+            kol = "kolmogorov" in fn
+            scale = numpy.abs(ref) if kol else numpy.full(ref.shape, KD * (A if fn == "structure_function_vk" else L0 ** (5. / 3)))
+            for cls, arg in (("float32-array", r32), ("float32-2-D-fortran", numpy.asfortranarray(r32.reshape(4, 6))),
+                             ("float32-scalars", None)):
+                if arg is None:
+                    got = numpy.array([float(_ev(f, numpy.float32(v), r0, L0)) for v in r32[:8]])
+                    want, sc_ = ref[:8], scale[:8]
+                else:
+                    got = _ev(f, arg, r0, L0).ravel()
+                    want, sc_ = ref, scale
+                err = numpy.abs(got - want) if got.shape == want.shape else numpy.array([numpy.inf])
+                zero_ok = got.shape == want.shape and numpy.all(got[want == 0] == 0)
+                if got.shape == want.shape and numpy.isfinite(got).all():
+                    track("float32:" + fn, float((err / (1e-4 * sc_ + 1e-300)).max()), 1.0)
+                if not (got.shape == want.shape and numpy.isfinite(got).all() and zero_ok and numpy.all(err <= 1e-4 * sc_)):
+                    k = int(numpy.argmax(numpy.where(numpy.isfinite(err), err / (sc_ + 1e-300), numpy.inf))) if got.shape == want.shape else 0
+                    chk.fail("input-class:%s:%s" % (fn, cls), "%s(%s r, r0=%.4g, L0=%.4g) = %r at r = %r, in double precision %r"
+                             % (fn, cls, r0, L0, float(got[k]) if got.shape == want.shape else None, float(rr[k]), float(want[k])),
+                             dict(fn=fn, cls=cls, r0=r0, L0=L0, r=rr.tolist()))
+            # float32 r0 / L0 scalars with double-precision separations
+            a, b = numpy.float32(r0), numpy.float32(L0)
+            ref2 = _ev(f, rr, float(a), float(b))
+            got = _ev(f, rr, a, b)
+            sc2 = numpy.abs(ref2) if kol else numpy.full(ref2.shape, KD * ((float(b) / float(a)) ** (5. / 3) if fn == "structure_function_vk" else float(b) ** (5. / 3)))
+            if got.shape == ref2.shape and numpy.isfinite(got).all():
+                track("float32-r0-L0:" + fn, float((numpy.abs(got - ref2) / (1e-4 * sc2 + 1e-300)).max()), 1.0)
+            if not (got.shape == ref2.shape and numpy.isfinite(got).all() and numpy.all(got[ref2 == 0] == 0) and numpy.all(numpy.abs(got - ref2) <= 1e-4 * sc2)):
+                chk.fail("input-class:%s:float32-r0-L0" % fn, "%s with numpy.float32 r0=%r, L0=%r differs grossly from the call with the same values as "
+                         "Python floats" % (fn, float(a), float(b)), dict(fn=fn, r0=float(a), L0=float(b), r=rr.tolist()))
+        # phase_covariance: exact
+        for a, b, cls in ((numpy.float32(r0), numpy.float32(L0), "float32-r0-L0"), (numpy.float32(r0), L0, "float32-r0"), (r0, numpy.float32(L0), "float32-L0")):
+            with numpy.errstate(all="ignore"):
+                ref = numpy.asarray(turb.phase_covariance(rr, float(a), float(b)), dtype=float)
+                got = numpy.asarray(turb.phase_covariance(rr, a, b), dtype=float)
+                gs = numpy.array([float(turb.phase_covariance(float(v), a, b)) for v in rr[:6]])
+            for g_, w_ in ((got, ref), (gs, ref[:6])):
+                if g_.shape != w_.shape or not numpy.allclose(g_, w_, rtol=1e-13, atol=1e-13 * float(ref[0])):
+                    chk.fail("input-class:phase_covariance:%s" % cls, "phase_covariance(r, r0=%r, L0=%r) with numpy.float32 scalars differs from the call with "
+                             "the same values as Python floats: %r vs %r" % (float(a), float(b), g_.ravel()[:3].tolist(), w_.ravel()[:3].tolist()),
+                             dict(r0=float(a), L0=float(b), r=rr.tolist(), cls=cls))
+                    break
+
+
+def kl_entry_points(chk, quick):
+    """the Karhunen-Loève code's copy through every way it is reached: gkl_kernel with the tag / outer scale as keywords and with the
+    default tag, more radial resolutions (2 … 40, the default) and obscurations (0.01 … 0.9), integer and very large outer scales;
+    gkl_basis and make_kl (their eigenvalues are those of the kernel of the SAME tag and outer scale, and equal for all spellings of
+    one statistic)"""
+    import contextlib
+    import io
+    from aotools.turbulence import slopecovariance as sc
+    from aotools.functions import karhunenLoeve as kl
+    rng = chk.rng
+
+    def kernel_stat(ri, nr, ker):
+        rad = numpy.asarray(kl.gkl_radii(ri, nr), dtype=float)
+        nth = ker.shape[2]
+        fnorm = 1. / 2. * (-1) / (2 * numpy.pi * (1 - ri ** 2))
+        used = numpy.fft.ifft(ker, axis=2).real / (fnorm * 2 * numpy.pi / nth)
+        th = 2 * numpy.pi * numpy.arange(nth) / nth
+        sep = 0.5 * numpy.sqrt(numpy.maximum(rad[:, None, None] ** 2 + rad[None, :, None] ** 2
+                                             - 2 * rad[:, None, None] * rad[None, :, None] * numpy.cos(th)[None, None, :], 0))
+        return used, sep, rad
+
+    nrs = [2, 3, 4, 13, 16, 25, 40] if quick else list(range(2, 41))
+    for nr in nrs:
+        for ri in ((rng.choice([0.01, 0.9]), rng.choice([0.12, 0.3, 0.45])) if quick else (0.01, 0.12, 0.3, 0.45, 0.9)):
+            for how, tag, L0 in (("default-tag", None, None), ("keywords", "kolmogorov", None), ("keywords", rng.choice(["vonKarman", "karman", "vk"]), float(rng.choice([0.5, 1.0, 3.0]))),
+                                 ("int-outerscale", rng.choice(["vonKarman", "karman", "vk"]), rng.choice([1, 3, 20])),
+                                 ("huge-outerscale", rng.choice(["vonKarman", "karman", "vk"]), rng.choice([1e3, 1e6]))):
+                chk.oracle_cases += 1
+                chk.count("oracle:kl-kernel:%s" % how)
+                chk.case(("oracle-kl-kernel2", nr, ri, how, tag, L0))
+                rad = numpy.asarray(kl.gkl_radii(ri, nr), dtype=float)
+                with numpy.errstate(all="ignore"):
+                    if how == "default-tag":
+                        ker = kl.gkl_kernel(ri, nr, rad.copy())
+                    elif how == "keywords":
+                        ker = kl.gkl_kernel(ri=ri, nr=nr, rad=rad.copy(), stfunc=tag, **({} if L0 is None else {"outerscale": L0}))
+                    else:
+                        ker = kl.gkl_kernel(ri, nr, rad.copy(), tag, L0)
+                    ker = numpy.asarray(ker)
+                    used, sep, _ = kernel_stat(ri, nr, ker)
+                    want = numpy.asarray(kl.stf_kolmogorov(sep) if L0 is None else sc.structure_function_vk(sep, 1.0, float(L0)), dtype=float)
+                err = float(numpy.abs(used - want).max() / numpy.abs(want).max()) if used.shape == want.shape else float("inf")
+                # the closed form 1 - h(x)/h0 is evaluated with absolute error ~1e-16 of the saturation value: for outer scales of 1e3 …
+                # 1e6 apertures the separations of the kernel and of this reference (1 ulp apart) give values 1e-16·sat/D apart
+                tol = 1e-10 + (0.0 if L0 is None else 1e-13 * KD * float(L0) ** (5. / 3) / float(numpy.abs(want).max()))
+                track("kl-kernel:" + how, err, tol)
+                if not err <= tol:                              # observed: see the notes (worst fraction of the tolerance)
+                    chk.fail("copies:kl-kernel:%s:%s" % (how, "kolmogorov" if L0 is None else "vonKarman"),
+                             "the structure function inside gkl_kernel(ri=%r, nr=%d, %s) deviates from the %s one at the separations of the polar grid by "
+                             "%.3g of the largest value" % (ri, nr, "default tag" if tag is None else "stfunc=%r, outerscale=%r" % (tag, L0),
+                                                           "Kolmogorov" if L0 is None else "slope-covariance von Kármán", err),
+                             dict(ri=ri, nr=nr, L0=L0, stfunc=tag, how=how))
+    # gkl_basis / make_kl: eigenvalues of the kernel of the same statistic
+    for nr, nfunc in ((8, 10), (12, 20)) if quick else ((6, 8), (8, 10), (9, 12), (12, 20), (16, 30)):
+        ri = rng.choice([0.1, 0.2, 0.35])
+        L0 = float(rng.choice([0.5, 1.0, 2.5]))                # none of the 'typical' values a default could be
+        ref = {}
+        for stat, tags in (("kolmogorov", ["kolmogorov", "kolstf", None]), ("vonKarman", ["vonKarman", "karman", "vk"])):
+            rad = kl.gkl_radii(ri, nr)
+            with numpy.errstate(all="ignore"):
+                ker = kl.gkl_kernel(ri, nr, rad, stat, L0 if stat == "vonKarman" else None)
+                ref[stat] = numpy.asarray(kl.gkl_fcom(ri, ker, nfunc)[0], dtype=float)
+            for tag in tags:
+                chk.oracle_cases += 1
+                chk.count("oracle:kl-entry-point")
+                chk.case(("oracle-kl-entry", nr, nfunc, ri, stat, tag, L0))
+                out = io.StringIO()
+                with contextlib.redirect_stdout(out), numpy.errstate(all="ignore"):
+                    if tag is None:
+                        ev = kl.gkl_basis(ri=ri, nr=nr, nfunc=nfunc)["evals"]                  # default tag of gkl_basis
+                        ev2 = kl.make_kl(nfunc, 16, ri=ri, nr=nr)[1]                           # default tag of make_kl
+                    else:
+                        kw = {"outerscale": L0} if stat == "vonKarman" else {}
+                        ev = kl.gkl_basis(ri, nr, None, nfunc, tag, **kw)["evals"]
+                        ev2 = kl.make_kl(nfunc, 16, ri=ri, nr=nr, stf=tag, **kw)[1]
+                for name, e_, npp in (("gkl_basis", ev, None), ("make_kl", ev2, int(2 * numpy.pi * nr))):
+                    e_ = numpy.asarray(e_, dtype=float)
+                    if e_.shape != ref[stat].shape or not numpy.allclose(e_, ref[stat], rtol=1e-12, atol=1e-14 * float(numpy.abs(ref[stat]).max())):
+                        chk.fail("copies:kl-entry-point:%s:%s" % (name, stat), "%s(ri=%r, nr=%d, nfunc=%d, stf=%s%s): its eigenvalues %s are not those of "
+                                 "gkl_kernel(…, %r%s) %s" % (name, ri, nr, nfunc, "default" if tag is None else repr(tag), "" if stat == "kolmogorov" else ", outerscale=%r" % L0,
+                                                            e_[:3].tolist(), stat, "" if stat == "kolmogorov" else ", %r" % L0, ref[stat][:3].tolist()),
+                                 dict(fn=name, ri=ri, nr=nr, nfunc=nfunc, stf=tag, L0=L0))
+
+
+def large_point_sets(chk, quick):
+    """covariance matrices with more than 2^16 (thorough: 2^18) entries, a single point, points on an integer lattice"""
+    from aotools.turbulence import turb
+    rng = chk.rng
+    kc = kappa_c()
+    for npts, kind in ([(1, "cloud"), (260, "cloud"), (132, "int-lattice")] if quick else [(1, "cloud"), (260, "cloud"), (132, "int-lattice"), (520, "cloud"), (600, "clustered")]):
+        chk.oracle_cases += 1
+        r0, L0 = gen_atm(rng)
+        c0 = 0.5 * kc * (L0 / r0) ** (5. / 3)
+        nprng = numpy.random.default_rng(rng.getrandbits(32))
+        scale = logu(rng, 1e-2, 30.0) * L0
+        if kind == "int-lattice":
+            P = numpy.stack(numpy.meshgrid(numpy.arange(12), numpy.arange(11)), -1).reshape(-1, 2).astype(float) * max(1.0, round(scale / 12))
+        elif kind == "clustered":
+            P = nprng.normal(size=(npts, 2)) * scale * 1e-3 + nprng.integers(0, 3, size=(npts, 1)) * scale
+        else:
+            P = nprng.uniform(-scale, scale, size=(npts, 2))
+        chk.count("psd-matrix:large:" + kind)
+        chk.case(("oracle-psd-large", kind, r0, L0, scale, len(P)))
+        dist = numpy.sqrt(((P[:, None, :] - P[None, :, :]) ** 2).sum(-1))
+        with numpy.errstate(all="ignore"):
+            M = numpy.asarray(turb.phase_covariance(dist.copy(), r0, L0), dtype=float)
+        if M.shape != dist.shape or not numpy.isfinite(M).all():
+            chk.fail("nan:phase_covariance:matrix", "phase_covariance of a %s distance matrix is not finite / wrong shape" % (dist.shape,), dict(n=len(P), r0=r0, L0=L0, kind=kind))
+            continue
+        lam = numpy.linalg.eigvalsh(0.5 * (M + M.T))
+        track("posdef:phase_covariance:large", -lam.min(), TE * len(P) * c0)
+        # a few entries against scalar calls (a size-dependent path must not change the values)
+        for _ in range(4):
+            i, j = rng.randrange(len(P)), rng.randrange(len(P))
+            s = fscalar(turb.phase_covariance(float(dist[i, j]), r0, L0))
+            if not common.close(s, float(M[i, j]), 1e-13, TC * c0):
+                chk.fail("elementwise:phase_covariance:matrix", "phase_covariance(%r) as a scalar gives %r, inside a %dx%d matrix %r (r0=%r L0=%r)"
+                         % (float(dist[i, j]), s, len(P), len(P), float(M[i, j]), r0, L0), dict(r=float(dist[i, j]), r0=r0, L0=L0, n=len(P)))
+        if not (numpy.abs(M - M.T).max() <= 1e-12 * c0 and lam.min() >= -TE * len(P) * c0):
+            chk.fail("posdef:phase_covariance", "covariance matrix of %d points (%s, scale %r) has smallest eigenvalue %r (C0 = %r), asymmetry %r"
+                     % (len(P), kind, scale, float(lam.min()), c0, float(numpy.abs(M - M.T).max())), dict(n=len(P), kind=kind, scale=scale, r0=r0, L0=L0))
+
+
+def aliases(chk):
+    """the package-level names are the functions checked here"""
+    import aotools
+    import aotools.turbulence
+    import aotools.functions
+    from aotools.turbulence import turb, slopecovariance as sc
+    from aotools.functions import karhunenLoeve as kl
+    r = numpy.array([0.0, 1e-3, 0.4, 3.0, 70.0, 1e4])
+    for mods, home, names in (((aotools, aotools.turbulence), turb, ["phase_covariance"]),
+                              ((aotools, aotools.turbulence), sc, ["structure_function_vk", "structure_function_kolmogorov"]),
+                              ((aotools, aotools.functions), kl, ["stf_vonKarman", "stf_kolmogorov", "stf_vonKarman_yao", "gkl_kernel", "gkl_basis", "make_kl"])):
+        for name in names:
+            base = getattr(home, name)
+            for mod in mods:
+                chk.oracle_cases += 1
+                chk.case(("alias", mod.__name__, name))
+                f = getattr(mod, name, None)
+                if f is None:
+                    chk.broke("correspondence", "%s.%s does not exist any more" % (mod.__name__, name))
+                elif f is not base:
+                    import inspect
+                    npar = len(inspect.signature(base).parameters)
+                    args = {1: (r,), 2: (r, 0.13), 3: (r, 0.13, 21.0)}.get(npar)
+                    same = False
+                    if args is not None:
+                        with numpy.errstate(all="ignore"):
+                            same = numpy.array_equal(numpy.asarray(f(*args)), numpy.asarray(base(*args)))
+                    if not same:
+                        chk.fail("alias:%s.%s" % (mod.__name__, name), "%s.%s is another function than %s.%s%s" % (
+                            mod.__name__, name, home.__name__, name, "" if args is None else " and gives other values"), dict(name=name, module=mod.__name__))
+
+
 def h1_numeric(chk):
     """the named hypothesis H1 for scipy's K_5/6 on a grid (reported, not a verdict: it is a fact about scipy, not aotools)"""
     from scipy.special import kv
@@ -676,7 +1092,15 @@ def run(chk):
                 "the real code with the tolerances named in each failure key; every clause that goes through phase_covariance uses 1e-10 C0 "
                 "(double precision; observed <= 8e-15 C0 over 10 seeds, worst fractions in the notes), so single-precision arithmetic inside it "
                 "(6e-8) is a violation; input classes: float64/float32/int arrays of rank 0-3, Python/NumPy int scalars, int r0/L0, strided / "
-                "reversed / transposed / broadcast views; distinct = distinct (r0, L0, separations) tuples")
+                "reversed / transposed / broadcast views; round 5: call sequences with r0 or L0 differing by 2.7e-3 … 1e-8 relative checked by "
+                "the exact scaling laws f(r; c r0, L0) = c^(-5/3) f and f(c r; r0, c L0) = c^(5/3) f (1e-11 relative + 1e-12 saturation; observed "
+                "9e-4 of that), arrays of 300 … 2^18+1 (thorough 2^20+1) separations against the same separations 37 at a time (1e-13), NumPy "
+                "float scalars / 0-d / 1-element / empty / all-zero / negative-zero / read-only / negative-stride / moved-axis arguments, float32 "
+                "separations and float32 r0, L0 of the structure functions (gross errors only: 1e-4 of the saturation value, observed 7e-7; "
+                "phase_covariance with float32 r0, L0 exact), 10 % of the oracle cases with r0 in 1e-4 … 1e3 and L0 in 1e-3 … 1e10, separations "
+                "to 1e12 L0, gkl_kernel by keywords / default tag / nr 2 … 40 / ri 0.01 … 0.9 / integer and 1e3 … 1e6 outer scales (tolerance "
+                "1e-10 + 1e-13 sat/D: the closed form's own conditioning), eigenvalues of gkl_basis and make_kl for every tag spelling, covariance "
+                "matrices of 260 (thorough 600) points, package-level names; distinct = distinct (r0, L0, separations) tuples")
     chk.assumptions = [
         "H1 (x^(5/6) K_5/6(x) antitone on (0,inf), -> 2^(-1/6) Gamma(5/6) at 0+, -> 0 at inf) is a theorem hypothesis of D_nonneg, D_le_sat, "
         "D_monotone, D_tendsto_zero, D_saturates, cov_bounds, cov_antitone, cov_tendsto_zero; for the real Bessel function it is checked "
@@ -714,5 +1138,13 @@ def run(chk):
         oracle(chk, 20000, 300, 10000)
     input_classes(chk, 6 if quick else 200)
     float32_separations(chk, 8 if quick else 200)
+    # round 5 (generator audit): input classes, sizes, entry points and call histories the sections above never produce
+    near_equal_history(chk, 40 if quick else 2000)
+    big_arrays(chk, quick)
+    more_input_classes(chk, 6 if quick else 200)
+    float32_other(chk, 8 if quick else 200)
+    kl_entry_points(chk, quick)
+    large_point_sets(chk, quick)
+    aliases(chk)
     chk.notes.append("oracle: worst observed value as a fraction of its tolerance, per phase_covariance clause: %s"
                      % json.dumps({k: float("%.2e" % v) for k, v in sorted(WORST.items())}))
